@@ -17,12 +17,26 @@ class _F:
         return len(a)
 
 
-def node_order(nch: int, r0: bool, r1: bool, r2: bool, r3: bool, fail: int) -> None:
+def _undefined(idx):
+    from smartquery.exceptions import ParserError as _PE
+    return _PE('Undefined variable v%d' % idx)
+
+
+RAISE_KINDS = [None, _undefined, lambda idx: KeyError('v%d' % idx), lambda idx: TypeError('unsupported operand')]
+
+
+def node_order(nch: int, r0: bool, r1: bool, r2: bool, r3: bool, fail: int, fkind: int = 0) -> None:
     """
-    pre: 0 <= nch <= 4 and -1 <= fail <= 7
+    pre: 0 <= nch <= 4 and -1 <= fail <= 7 and 0 <= fkind <= 3
     post: True
     """
     hlib.enter(locals())
+    # what a failing child raises: a plain exception, the language's own "undefined variable" ParserError, a KeyError, a TypeError
+    fkind = hlib.concrete(fkind, 0, 3)
+    hlib.assume(fkind == 0 or fail >= 0)
+    from sqv import nodes as _nodes
+    _nodes.Stub.RAISE = RAISE_KINDS[fkind]
+    del _nodes.LAST_RAISED[:]
     hlib.assume(hlib.deep() or (nch <= 2 and fail <= 3))
     kind, op = hlib.PARAM["kind"], hlib.PARAM["op"]
     log = []
@@ -38,6 +52,8 @@ def node_order(nch: int, r0: bool, r1: bool, r2: bool, r3: bool, fail: int) -> N
         res = node.eval(st)
     except Exception as e:
         raised = e
+    finally:
+        _nodes.Stub.RAISE = None
     m = len(stubs)
     # expected sequence of child evaluations
     if kind == 'BinOp' and op == 'and':
@@ -64,11 +80,11 @@ def node_order(nch: int, r0: bool, r1: bool, r2: bool, r3: bool, fail: int) -> N
             from smartquery.exceptions import ParserError as _PE
             assert isinstance(raised, _PE), "call of an undefined function did not raise ParserError"
         else:
-            assert type(raised) is StubRaise, "a failing argument's error was replaced by the undefined-function error"
+            assert _nodes.LAST_RAISED and raised is _nodes.LAST_RAISED[-1], "a failing argument's error was replaced by the undefined-function error"
         hlib.done()
         return
     if fail in exp:
-        assert type(raised) is StubRaise, "a failing operand's error was swallowed or replaced"
+        assert _nodes.LAST_RAISED and raised is _nodes.LAST_RAISED[-1], "a failing operand's error was swallowed or replaced"
         assert ('call', m) not in log and st.names.scopes[-1]['x'] is host['x'], "operation applied although an operand failed"
     else:
         if kind == 'BinOp' and op == 'and':
@@ -130,6 +146,18 @@ TEMPLATES = [
     ("nosuch(t(1), t(2, a))", lambda a, b, c: [1, 2]),
     ("t(1, l).nosuch(t(2))", lambda a, b, c: [1, 2]),
     ("t(1) | nosuch", lambda a, b, c: [1]),
+    # membership in a list literal: every element is evaluated, also after a match
+    ("t(1, zero) in [t(2, zero), t(3), t(4, zero)]", lambda a, b, c: [1, 2, 3, 4]),
+    ("t(1, zero) not in [t(2, zero), t(3)]", lambda a, b, c: [1, 2, 3]),
+    ("[t(1, zero)] in [[t(2, zero)], [t(3)]]", lambda a, b, c: [1, 2, 3]),
+    ("t(1, 'k') in {t(2, 'k'): t(3), t(4, 'j'): t(5)}", lambda a, b, c: [1, 2, 3, 4, 5]),
+    # a name that cannot be resolved anywhere in a condition / operand ends the evaluation there
+    ("t(1, a) if nosuch else t(2, b)", lambda a, b, c: []),
+    ("t(1, a) if (t(2, c) and nosuch) else t(3, b)", lambda a, b, c: [2] if c else [2, 3]),
+    ("(nosuch or t(1, a)) and t(2, b)", lambda a, b, c: []),
+    ("[t(1), nosuch, t(2)]", lambda a, b, c: [1]),
+    ("t(1, l) | map(v => nosuch + t(2, v))", lambda a, b, c: [1]),
+    ("t(1, a) if t(2, l)[t(3, one) + one] else t(4, b)", lambda a, b, c: [2, 3]),
 ]
 if isinstance(hlib.PARAM, dict) and "t" in hlib.PARAM:
     prewarm(TEMPLATES[hlib.PARAM["t"]][0])
@@ -149,6 +177,10 @@ def api_order(a: int, b: int, c: bool, fail: int) -> None:
         exp = exp[:exp.index(fail) + 1]
         assert out[0] == 'err' and out[1] is StubRaise, "error raised by an operand was swallowed or replaced"
     assert p.log == exp, "probes ran in the wrong order / wrong number of times"
+    if ('nosuch' in text or 'one) + one]' in text) and not (fail in exp):
+        from smartquery.exceptions import ParserError as _PE
+        if not (text.startswith("t(1, a) if (t(2, c)") and not c):
+            assert out[0] == 'err' and out[1] is _PE, "a failing name lookup / index did not end the evaluation with a ParserError"
     if hlib.PARAM["t"] == 0 and out[0] == 'ok':
         want = (a if a else b) if c else b          # `c and a or b` yields the deciding operand ITSELF
         assert out[1] is want or (type(out[1]) is type(want) and out[1] == want and not isinstance(want, int)), \
